@@ -212,16 +212,7 @@ class Command:
                         target.write(
                             "[{}]".format(
                                 ", ".join(
-                                    [
-                                        (
-                                            v
-                                            if len(v) > 1
-                                            and v.startswith('"')
-                                            and v.endswith('"')
-                                            else '"%s"' % v
-                                        )
-                                        for v in value
-                                    ]
+                                    [self.__list_item_tosieve(v) for v in value]
                                 )
                             )
                         )
@@ -247,6 +238,16 @@ class Command:
         for ch in self.children:
             ch.tosieve(indentlevel + 4, target=target)
         self.__print("}", indentlevel, target=target)
+
+    def __list_item_tosieve(self, item: str) -> str:
+        """Return the sieve syntax of a string list item."""
+        if len(item) > 1 and item.startswith('"') and item.endswith('"'):
+            # already a quoted string (item comes from the parser)
+            return item
+        if item.startswith("text:") and item.rstrip("\r").endswith("\n."):
+            # multi-line string (item comes from the parser)
+            return item + "\n"
+        return '"%s"' % item
 
     def __print(
         self, data: str, indentlevel: int, nocr: bool = False, target=sys.stdout
